@@ -266,6 +266,15 @@ def check(tier="quick", seed=0, workers=None, only=None):
         for x in v["violations"]:
             viols.append({"oracle": x["oracle"], "message": x["message"], "signature": x["signature"], "spec": v["spec"],
                           "choices": v["choices"], "labels": v["labels"], "trace": v["trace"][-30:]})
+    # multiplexed HTTP/2 bodies: which task's read happens to carry a stream's DATA is a kind of segmentation too
+    from . import conc, common
+    cst, cinfo = conc.run_for("C02", tier, seed, workers, only) if not only else (engine.Stats(bound=None), {})
+    for v in common.collect(cst, ("C01",)):
+        if v["oracle"] == "C01.cross-talk":
+            v = dict(v, oracle="C02.body")
+            v["signature"] = dict(v["signature"], kind="multiplexed-body")
+            viols.append(v)
+    st.merge_from(cst)
     cov = evidence.stats_coverage(
         st,
         rule=("one scenario = one generated well-formed response x {sync,async} x {request(),stream()} (HTTP/1.1) or one HTTP/2 frame script; "
@@ -274,7 +283,7 @@ def check(tier="quick", seed=0, workers=None, only=None):
               "a frontier that drains = every segmentation and truncation point of that response; non-trivial = outcome class of an "
               "execution with more than one read or a truncation"),
         extra={"scenarios": len(allsp), "http11_scenarios": len(sp), "http2_scenarios": len(sp2), "merge_selftest": mt,
-               "responses_in_corpus": len(corpus(tier))})
+               "responses_in_corpus": len(corpus(tier)), "multiplexed_http2": cinfo})
     return {"level": "model_checking", "coverage": cov, "violations": viols,
             "assumptions": ["the peer sends exactly the scripted well-formed response; bytes lost on peer death are never delivered",
                             "the inlined list comprehension inside Response.read() keeps its partial list on the evaluation stack where the fingerprint cannot see it; "
